@@ -1,55 +1,168 @@
 /-
   C12 - concurrent callers never disable each other's checks.
-  `Conc.step` runs one task from one suspension point to the next; a schedule is any list of task
-  indices.  Under the repaired discipline (`perContext`: an immutable value bound per context,
-  restored on exit) every context has its own binding, whatever it was copied from.
+  `Conc.step` runs one task from one suspension point to the next; a schedule is any list of operations:
+  a task runs, a task is created in a COPY of another task's current context (asyncio tasks, `to_thread`,
+  `copy_context().run`), a plain thread is created with an empty context.  A call goes through the function
+  wrapper (preconditions - body - postconditions), the public-method wrapper (invariants - body - invariants)
+  or the constructor wrapper (body - invariants).  Under the repaired discipline (`perContext`: an immutable
+  value bound per context, restored on exit) every context has its own binding, whatever it was copied from.
 -/
 import IcontractModel.Conc
 import IcontractModel.Lemmas.ConcLemmas
 namespace Icontract.Conc
 
-/-- every task has its own binding, and no task starts inside a check of a function it calls
-(contexts copied *while* the parent is evaluating contracts are outside the property's modes) -/
+/-- every task has its own binding, is about to start its program, and no task starts inside a check of
+something it calls -/
 structure WellFormed (w : World) : Prop where
   distinctCtx : ∀ (i j : Nat) (ti tj : Conc.Task), w.tasks[i]? = some ti → w.tasks[j]? = some tj → i ≠ j → ti.ctx ≠ tj.ctx
   ctxInRange : ∀ (i : Nat) (ti : Conc.Task), w.tasks[i]? = some ti → ti.ctx < w.sets.length
-  startIdle : ∀ (i : Nat) (ti : Conc.Task), w.tasks[i]? = some ti → ti.pc = .idle ∧ ti.verdicts = []
+  startIdle : ∀ (i : Nat) (ti : Conc.Task), w.tasks[i]? = some ti → ti.pc = .idle ∧ ti.verdicts = [] ∧ ti.program = ti.calls
   notInProgress : ∀ (i : Nat) (ti : Conc.Task), w.tasks[i]? = some ti → ∀ c ∈ ti.calls, (getSet w ti.ctx).contains c.f = false
 
+/-- the world a process starts in is well-formed, whatever the programs -/
+theorem C12_start_is_well_formed (ps : List (List CallSpec)) : WellFormed (World.start ps) :=
+  let h := start_Start ps
+  ⟨h.distinctCtx, h.ctxInRange, h.startIdle, h.notInProgress⟩
+
+theorem WellFormed.toStart {w : World} (hw : WellFormed w) : Start w :=
+  ⟨hw.distinctCtx, hw.ctxInRange, hw.startIdle, hw.notInProgress⟩
+
 /-- **The verdict of a call depends only on that call**: for every set of tasks, every program of
-calls, every context-inheritance mode that yields a well-formed start, and EVERY schedule, the verdicts
-a task has produced so far are exactly the verdicts the property demands for the calls it has
+calls (of functions, public methods and constructors - on shared functions and shared instances), and EVERY
+schedule of runs and task creations in which contexts are copied outside the evaluations they would disable,
+the verdicts a task has produced so far are exactly the verdicts the property demands for the calls it has
 completed - in order - and the calls still to do are the rest of its program. -/
-theorem C12_verdicts_independent_of_schedule (w : World) (hw : WellFormed w) (sched : List Nat)
-    (i : Nat) (t0 t : Conc.Task) (h0 : w.tasks[i]? = some t0)
-    (h : (runSchedule .perContext w sched).tasks[i]? = some t) :
-    t.verdicts = (t0.calls.take t.verdicts.length).map CallSpec.expected ∧
-    t.verdicts.length ≤ t0.calls.length := by
-  obtain ⟨_, ⟨done, hd, hv⟩, _⟩ := reachable_task ⟨hw.1, hw.2, hw.3, hw.4⟩ sched i t0 t h0 h
-  have hlen : t.verdicts.length = done.length := by simp [hv]
-  refine ⟨?_, ?_⟩
-  · rw [hlen, hd, List.take_left', hv]; rfl
-  · rw [hlen, hd]; simp
+theorem C12_verdicts_independent_of_schedule (w : World) (hw : WellFormed w) (ops : List Op)
+    (hs : safeOps .perContext w ops = true)
+    (i : Nat) (t : Conc.Task) (h : (runOps .perContext w ops).tasks[i]? = some t) :
+    t.verdicts = (t.program.take t.verdicts.length).map CallSpec.expected ∧
+    t.program = t.program.take t.verdicts.length ++ t.calls := by
+  obtain ⟨hh, hT⟩ := reachable_task hw.toStart ops hs i t h
+  exact hT.verdicts_take
 
 /-- no call is ever made on the unchecked (re-entrant) path -/
-theorem C12_no_call_skips_its_checks (w : World) (hw : WellFormed w) (sched : List Nat)
-    (i : Nat) (t : Conc.Task) (h : (runSchedule .perContext w sched).tasks[i]? = some t) :
+theorem C12_no_call_skips_its_checks (w : World) (hw : WellFormed w) (ops : List Op)
+    (hs : safeOps .perContext w ops = true)
+    (i : Nat) (t : Conc.Task) (h : (runOps .perContext w ops).tasks[i]? = some t) :
     ∀ n e, t.pc ≠ .inBody n false e := by
-  have hs : Start w := ⟨hw.1, hw.2, hw.3, hw.4⟩
-  obtain ⟨t0, h0⟩ := reachable_task_orig hs sched i t h
-  have hpc := (reachable_task hs sched i t0 t h0 h).pc
-  intro n e hne
-  rw [hne] at hpc
-  exact hpc
+  obtain ⟨hh, hT⟩ := reachable_task hw.toStart ops hs i t h
+  exact hT.checked
 
 /-- a task scheduled often enough completes its whole program with exactly the demanded verdicts,
 whatever the other tasks do in between -/
-theorem C12_completes_with_expected_verdicts (w : World) (hw : WellFormed w) (sched : List Nat)
-    (i : Nat) (t0 t : Conc.Task) (h0 : w.tasks[i]? = some t0)
-    (h : (runSchedule .perContext w sched).tasks[i]? = some t) (hdone : t.calls = []) :
-    t.verdicts = t0.calls.map CallSpec.expected := by
-  obtain ⟨_, ⟨done, hd, hv⟩, _⟩ := reachable_task ⟨hw.1, hw.2, hw.3, hw.4⟩ sched i t0 t h0 h
-  rw [hd, hdone, List.append_nil, hv]
+theorem C12_completes_with_expected_verdicts (w : World) (hw : WellFormed w) (ops : List Op)
+    (hs : safeOps .perContext w ops = true)
+    (i : Nat) (t : Conc.Task) (h : (runOps .perContext w ops).tasks[i]? = some t) (hdone : t.calls = []) :
+    t.verdicts = t.program.map CallSpec.expected := by
+  obtain ⟨hh, hT⟩ := reachable_task hw.toStart ops hs i t h
+  obtain ⟨done, hd, hv⟩ := hT.prog
+  rw [hd, hdone, List.append_nil]
+  exact hv
+
+/-- the task is between two calls, or in the body of a function (whose mark is lifted for the body) -/
+def Task.outsideChecks (t : Conc.Task) : Bool :=
+  match t.pc, t.calls with
+  | .idle, _ => true
+  | .inBody _ true _, c :: _ => c.kind == .function
+  | _, _ => false
+
+/-- every context copy in the schedule is made while the parent is outside its checks -/
+def copiesOutsideChecks (d : Discipline) : World → List Op → Bool
+  | _, [] => true
+  | w, op :: rest =>
+    (match op with
+     | .fork p _ => (match w.tasks[p]? with | none => true | some tp => Task.outsideChecks tp)
+     | _ => true) && copiesOutsideChecks d (applyOp d w op) rest
+
+/-- while every home value is empty, a task outside its checks has nothing marked -/
+theorem outsideChecks_nothing_marked {w : World} (hI : Inv (fun h => h = []) w) {p : Nat} {tp : Conc.Task}
+    (htp : w.tasks[p]? = some tp) (ho : Task.outsideChecks tp = true) : getSet w tp.ctx = [] := by
+  obtain ⟨hh, hP, hT⟩ := hI.task p tp htp
+  subst hP
+  apply hT.outside_home
+  obtain ⟨ctx, calls, pc, verdicts, program⟩ := tp
+  cases pc with
+  | idle => exact Or.inl rfl
+  | inCond n e => simp [Task.outsideChecks] at ho
+  | inPost n e => simp [Task.outsideChecks] at ho
+  | inBody n ck e =>
+    cases ck with
+    | false => simp [Task.outsideChecks] at ho
+    | true =>
+      cases calls with
+      | nil => simp [Task.outsideChecks] at ho
+      | cons c rest =>
+        refine Or.inr ⟨n, e, c, rest, rfl, rfl, ?_⟩
+        simpa [Task.outsideChecks] using ho
+
+/-- copies made outside checks are safe copies, from every world in which all home values are empty -/
+theorem safeOps_of_copiesOutsideChecks (ops : List Op) :
+    ∀ {w : World}, Inv (fun h => h = []) w → copiesOutsideChecks .perContext w ops = true →
+      safeOps .perContext w ops = true := by
+  induction ops with
+  | nil => intro w _ _; rfl
+  | cons op rest ih =>
+    intro w hI hc
+    simp only [copiesOutsideChecks, Bool.and_eq_true] at hc
+    obtain ⟨hop, hrest⟩ := hc
+    have hmarked : ∀ p calls tp, op = .fork p calls → w.tasks[p]? = some tp → getSet w tp.ctx = [] := by
+      intro p calls tp hopeq htp
+      subst hopeq
+      simp only [htp] at hop
+      exact outsideChecks_nothing_marked hI htp hop
+    have hsafe : opSafe w op = true := by
+      cases op with
+      | run i => rfl
+      | thread calls => rfl
+      | fork p calls =>
+        cases htp : w.tasks[p]? with
+        | none => simp [opSafe, htp]
+        | some tp => simp [opSafe, htp, hmarked p calls tp rfl htp]
+    simp only [safeOps, Bool.and_eq_true]
+    exact ⟨hsafe, ih (hI.applyOp rfl hsafe hmarked) hrest⟩
+
+/-- **Inheriting a context after the parent has executed contracted code changes nothing**: from the start
+of a process, contexts copied while their parent is between two calls (or in the body of a contracted
+function) - however much contracted code the parent ran before - are always copied safely ... -/
+theorem C12_copies_outside_checks_are_safe (ps : List (List CallSpec)) (ops : List Op)
+    (h : copiesOutsideChecks .perContext (World.start ps) ops = true) :
+    safeOps .perContext (World.start ps) ops = true :=
+  safeOps_of_copiesOutsideChecks ops (Inv.start ps) h
+
+/-- ... hence every task - created at the start, as a plain thread, or in a copied context - gets exactly the
+verdicts of its own calls -/
+theorem C12_inherited_contexts_do_not_matter (ps : List (List CallSpec)) (ops : List Op)
+    (h : copiesOutsideChecks .perContext (World.start ps) ops = true)
+    (i : Nat) (t : Conc.Task) (ht : (runOps .perContext (World.start ps) ops).tasks[i]? = some t) :
+    t.verdicts = (t.program.take t.verdicts.length).map CallSpec.expected ∧
+    (∀ n e, t.pc ≠ .inBody n false e) := by
+  have hs := C12_copies_outside_checks_are_safe ps ops h
+  obtain ⟨hh, hT⟩ := reachable_task (start_Start ps) ops hs i t ht
+  exact ⟨hT.verdicts_take.1, hT.checked⟩
+
+/-- non-vacuity: two tasks hammer one function and one shared instance while a third one is created in a
+copy of the first one's context between two of its calls -/
+example :
+    let f : CallSpec := { f := 7, preTruthy := true, condYields := 1, bodyYields := 1, postTruthy := false, postYields := 1 }
+    let m : CallSpec := { f := 9, kind := .method, preTruthy := true, condYields := 0, bodyYields := 1, postTruthy := true }
+    let k : CallSpec := { f := 9, kind := .ctor, preTruthy := true, condYields := 0, bodyYields := 0, postTruthy := false }
+    let ops : List Op := [.run 0, .run 1, .run 0, .run 0, .run 0, .fork 0 [m, k, f], .run 2, .run 1, .run 2, .run 2, .run 0,
+                          .thread [f], .run 3, .run 2, .run 2]
+    copiesOutsideChecks .perContext (World.start [[f, m], [m, f]]) ops = true ∧
+    ((runOps .perContext (World.start [[f, m], [m, f]]) ops).tasks.map (·.verdicts)) =
+      [[.postViolation], [.returned], [.returned, .postViolation], []] := by
+  decide
+
+/-- the boundary of the statement is real: a context copied INSIDE the body of a public method inherits the
+mark of the instance, and the new task's calls on that instance are made bare - a false invariant goes
+unnoticed (the same calls made directly from the body would be bare, too) -/
+theorem C12_copy_inside_a_method_body_inherits_the_mark :
+    let m : CallSpec := { f := 5, kind := .method, preTruthy := true, condYields := 0, bodyYields := 1 }
+    let bad : CallSpec := { f := 5, kind := .method, preTruthy := true, condYields := 0, bodyYields := 0, postTruthy := false }
+    ((runOps .perContext (World.start [[m]]) [.run 0, .fork 0 [bad], .run 1]).tasks[1]?).map (·.verdicts) = some [.returned] ∧
+    bad.expected = .postViolation ∧
+    safeOps .perContext (World.start [[m]]) [.run 0, .fork 0 [bad], .run 1] = false := by
+  decide
 
 /-- two tasks whose contexts were copied after the parent's first checked call (upstream: they share
 the parent's set object 0); the first is suspended inside the evaluation of f's precondition when the
@@ -64,6 +177,15 @@ precondition returned normally. -/
 theorem C12_shared_set_let_a_violating_call_return :
     ((runSchedule .shared aliasWitness [0, 1, 0, 0]).tasks[1]?).map (·.verdicts) = some [.returned] ∧
     ({ f := 7, preTruthy := false, condYields := 0, bodyYields := 0 } : CallSpec).expected = .violation := by
+  decide
+
+/-- the same, with the second task created by copying the first one's context between its calls - which is
+safe under the repaired discipline and was not under the upstream one -/
+theorem C12_shared_set_fork_witness :
+    let c0 : CallSpec := { f := 7, preTruthy := true, condYields := 1, bodyYields := 0 }
+    let c1 : CallSpec := { f := 7, preTruthy := false, condYields := 0, bodyYields := 0 }
+    ((runOps .shared (World.start [[c0]]) [.fork 0 [c1], .run 0, .run 1]).tasks[1]?).map (·.verdicts) = some [.returned] ∧
+    ((runOps .perContext (World.start [[c0]]) [.fork 0 [c1], .run 0, .run 1]).tasks[1]?).map (·.verdicts) = some [.violation] := by
   decide
 
 /-- the same schedule under the repaired discipline (each context has its own binding) -/
